@@ -92,7 +92,7 @@ CLAIMED.update({
 
 CLAIMED.update({
     "C01": dict(
-        text="Partial, per-function: Kani (full 8-bit domains, loop-free) runs the real generate_branch_instruction / generate_branch_instruction_alt against a recording shim and interprets the emitted branches on the flags a 6502 CMP / load produces: the branch reaches the label exactly when `a op b` holds, for every operator, signedness, a, b (signed orderings split into the overflow and non-overflow halves; the seven halves that are false today are recorded known findings with witness programs); the negate/switch operator tables of generate_condition_ex are semantically exact for all 16-bit operands; the operator tables handed to the Pratt parser follow C precedence; the whole of generate_plusplus is run against a recording shim and its emitted sequences are interpreted on every 16-bit / 8-bit value and register state (value +-1, registers and a live accumulator preserved, and the generator's flags belief afterwards is true); operand canonicalisation of generate_arithm never exchanges the operands of - and /; Verus shows csleep/load invalidate the generator's N/Z belief and label() resets it; the whole of generate_condition_ex is verified against stubs that keep a symbolic account of A/X/Y/cctmp and of the two values the flags compare: every branch emitter is reached with `flags-operands operator` equal to the comparison asked for (`l op r`, negated if asked) up to exchanging the operands together with mirroring the operator, including the self-recursion, and the generator's flags belief is true afterwards; the decision sequence of generate_condition_16bits is interpreted for every high/low byte of the 16-bit difference; generate_condition is verified in two parts: its logical structure (&&, ||, !, delegation of comparisons) as a recursive contract -- control reaches the label exactly when the condition holds, for every truth assignment of the leaves, local labels fresh (decimal rendering proved injective) -- and its value tail (`if (x)`); generate_if (exactly one body runs, break / continue shortcuts, the belief restored at the else label is one known to be true there) the loops (generate_while / do_while / for_loop / break / continue: single-pass contracts over a ghost control state, for arbitrary condition oracles and body exits) and generate_switch (inductive invariants over its cases: the statements that run are those C runs, for every value, case list and statement exit) are verified whole; the Expr::FunctionCall arm of generate_expr (a call is emitted once per evaluation, never again for the high byte of a 16-bit context) and the var_sign arms of the declaration decoders (declared signedness is the keyword written) are R8 windows under contract; generate_expr_cond / generate_not / generate_ternary (a condition used as a value) give 1 / 0, keep the stack balanced and never enter generate_condition with a live accumulator; generate_shift and generate_sign_extend are verified on the ghost 6502 as well; the whole of generate_assign is verified the same way for every destination x source kind (the destination holds the source's value, nothing else is disturbed, stack balanced, and the belief about N/Z is true afterwards); the whole of generate_arithm is verified against stubs that execute every emitted instruction on a ghost 6502: the returned expression denotes `l op r` for the byte computed (with the incoming carry for the high byte), carry-out, X/Y kept, stack balanced, a live accumulator preserved. BOUNDED stand-in (labelled, never counted as proved): a corpus of programs compiled by the real compiler and executed on a 6502 interpreter, compared with C.",
+        text="Partial, per-function: Kani (full 8-bit domains, loop-free) runs the real generate_branch_instruction / generate_branch_instruction_alt against a recording shim and interprets the emitted branches on the flags a 6502 CMP / load produces: the branch reaches the label exactly when `a op b` holds, for every operator, signedness, a, b (signed orderings split into the overflow and non-overflow halves; the seven halves that are false today are recorded known findings with witness programs); the negate/switch operator tables of generate_condition_ex are semantically exact for all 16-bit operands; the operator tables handed to the Pratt parser follow C precedence; the whole of generate_plusplus is run against a recording shim and its emitted sequences are interpreted on every 16-bit / 8-bit value and register state (value +-1, registers and a live accumulator preserved, and the generator's flags belief afterwards is true); operand canonicalisation of generate_arithm never exchanges the operands of - and /; Verus shows csleep/load invalidate the generator's N/Z belief and label() resets it; the whole of generate_condition_ex is verified against stubs that keep a symbolic account of A/X/Y/cctmp and of the two values the flags compare: every branch emitter is reached with `flags-operands operator` equal to the comparison asked for (`l op r`, negated if asked) up to exchanging the operands together with mirroring the operator, including the self-recursion, and the generator's flags belief is true afterwards; the decision sequence of generate_condition_16bits is interpreted for every high/low byte of the 16-bit difference; generate_condition is verified in two parts: its logical structure (&&, ||, !, delegation of comparisons) as a recursive contract -- control reaches the label exactly when the condition holds, for every truth assignment of the leaves, local labels fresh (decimal rendering proved injective) -- and its value tail (`if (x)`); generate_if (exactly one body runs, break / continue shortcuts, the belief restored at the else label is one known to be true there) the loops (generate_while / do_while / for_loop / break / continue: single-pass contracts over a ghost control state, for arbitrary condition oracles and body exits) and generate_switch (inductive invariants over its cases: the statements that run are those C runs, for every value, case list and statement exit) are verified whole; generate_function_call whole with its parameter and call blocks as stubs (live accumulator and scratch byte restored, stack balanced, result where the operand says), the variable / element-access arm of generate_expr (operand names the variable, subscripts on scalars rejected, subscript code emitted once, scratch byte free when Y is parked there), the Expr::FunctionCall arm of generate_expr (a call is emitted once per evaluation, never again for the high byte of a 16-bit context) and the var_sign arms of the declaration decoders (declared signedness is the keyword written) are R8 windows under contract; generate_expr_cond / generate_not / generate_ternary (a condition used as a value) give 1 / 0, keep the stack balanced and never enter generate_condition with a live accumulator; generate_shift and generate_sign_extend are verified on the ghost 6502 as well; the whole of generate_assign is verified the same way for every destination x source kind (the destination holds the source's value, nothing else is disturbed, stack balanced, and the belief about N/Z is true afterwards); the whole of generate_arithm is verified against stubs that execute every emitted instruction on a ghost 6502: the returned expression denotes `l op r` for the byte computed (with the incoming carry for the high byte), carry-out, X/Y kept, stack balanced, a live accumulator preserved. BOUNDED stand-in (labelled, never counted as proved): a corpus of programs compiled by the real compiler and executed on a 6502 interpreter, compared with C.",
         note="Five more defects found by these contracts were repaired (indexed element vs index register compared the register with itself; PHA without PLA; offset overflow panic; stale N/Z belief after STX/STY and `Y = Y`; assignment of a void call panicked); `s = X + 1000` losing the carry into the high byte is a recorded known finding of the bounded unit. NOT decided: composition of these pieces into whole-program semantic preservation (expression evaluation order, register/temporary liveness, deferred ++, flags belief elsewhere, loops/switch/calls, scoping) and the 'must be rejected with an error' clause. That needs an invariant over the entire generator and a semantics of the pest AST: out of reach for per-function contracts here.",
         technique="contract-based deductive verification (Verus: whole generator functions against ghost-machine stubs of asm(); statement generators against asm()'s proved contract) + contract-style full-domain model checking of extracted loop-free lowering code (Kani); bounded simulation corpus as a labelled stand-in",
         design="DESIGN.md section 5, C01"),
